@@ -166,7 +166,7 @@ let classify (row : xrow) (t : xetop) : string =
     (if (match t with ETop (ENum q) -> not (Z.ltb q.qnum Z0) | _ -> false) then "numeric_literal_item" else "") ])
   |> (fun s -> if s = "" then "unclassified" else s)
 
-let more_handle (toks : string list) : string =
+let rec more_handle (toks : string list) : string =
   match toks with
   | "B" :: _ :: rest ->
       (match Win.split_hash rest with
@@ -237,6 +237,27 @@ let more_handle (toks : string list) : string =
             | None -> "ok"
             | Some v when val_matches obs v -> "ok nt"
             | Some v -> "chk case_sensitive_text_" ^ path ^ " impl=" ^ obs ^ " spec=" ^ show_val v)
+       | _ -> "bad line")
+  | "PH" :: kind :: _ :: rest ->
+      (* poisoned history: the long-lived stream (after rows that made the fast evaluator fail) must give
+         what a fresh stream gives; then the value is judged like an S / H line *)
+      (match List.rev rest with
+       | u :: f :: before ->
+           if f <> u then "chk history_dependent poisoned_history fresh=" ^ f ^ " used=" ^ u
+           else if f = "PANIC" then "chk history_dependent panic"
+           else more_handle (kind :: List.rev (f :: before))
+       | _ -> "bad line")
+  | "F" :: path :: shape :: _ :: rest ->
+      (* a built-in with a Gallina meaning: the documented value (reference semantics), never a panic *)
+      (match Win.split_hash rest with
+       | [ _; enc; rowt; [ obs ] ] ->
+           let et = p_top enc in let row = parse_row rowt in
+           if obs = "PANIC" then "chk function_panic " ^ path ^ " " ^ shape
+           else
+           (match sem_top row et with
+            | Some v when val_matches obs v -> "ok nt"
+            | Some v -> "chk function_value " ^ path ^ " " ^ shape ^ " impl=" ^ obs ^ " spec=" ^ show_val v
+            | None -> "ok")
        | _ -> "bad line")
   | "M" :: _ :: verdict :: sqlv :: _ ->
       if verdict = "ok" && sqlv <> "PANIC" then "ok" else "chk malformed_" ^ verdict
@@ -344,8 +365,106 @@ let p_query (t : string list) : xquery =
       { q_items = l; q_where = w }
   | [] -> failwith "empty query"
 
+(* one observed result ("none" | "row" k=v ...) against the model's direct q row *)
+type dcmp = DSame | DUnmodelled | DDiffer of string
+let show_row (r : (n list * xvalue) list) : string =
+  String.concat " " (List.map (fun (k, v) -> hex_of_bytes k ^ "=" ^ show_val v) r)
+let cells_of (kvs : string list) : (n list * string) list =
+  List.map (fun kv -> match String.index_opt kv '=' with
+    | Some i -> (bytes_of_hex (String.sub kv 0 i), String.sub kv (i + 1) (String.length kv - i - 1))
+    | None -> failwith "bad cell") kvs
+let cmp_direct (d : xdirect) (obs : string list) : dcmp =
+  match d, obs with
+  | DUnm, _ -> DUnmodelled
+  | DNone, [ "none" ] -> DSame
+  | DRow r, "row" :: kvs ->
+      let cells = cells_of kvs in
+      if List.length cells = List.length r &&
+         List.for_all (fun (k, o) -> match xlookup r k with Some v -> val_matches o v | None -> false) cells
+      then DSame else DDiffer ("model=" ^ show_row r)
+  | DNone, _ -> DDiffer "model=none"
+  | DRow r, _ -> DDiffer ("model=" ^ show_row r)
+
+let id_key = bytes_of_hex "6964"
+let id_of_cells (kvs : string list) : string =
+  match List.assoc_opt id_key (cells_of kvs) with Some v -> v | None -> "?"
+let id_of_row (row : (n list * xvalue) list) : string =
+  match xlookup row id_key with Some v -> show_val v | None -> "?"
+
+(* X: the sink sequence of a single producer under buffer expansion *)
+let handle05_x (mode : string) (rest : string list) : string =
+  match Win.split_hash rest with
+  | _ :: qenc :: [ n; dropped; _; _; _ ] :: secs ->
+      let q = p_query qenc in
+      let n = int_of_string n in
+      let rec take k l = if k = 0 then ([], l) else (match l with x :: r -> let (a, b) = take (k - 1) r in (x :: a, b) | [] -> failwith "short X line") in
+      let (rowsecs, ressecs) = take n secs in
+      let rows = List.map parse_row rowsecs in
+      (* val_matches compares numbers as rationals: ids are matched through the model's printer *)
+      let norm_id s = (match s with
+        | "?" -> "?"
+        | _ -> if String.length s > 1 && s.[0] = 'n' then show_q (q_of_string (String.sub s 1 (String.length s - 1))) else s) in
+      let row_ids = List.map (fun r -> match xlookup r id_key with Some (VNum x) -> show_q x | _ -> "?") rows in
+      let res = List.map (fun sec -> match sec with
+        | "row" :: kvs -> (norm_id (id_of_cells kvs), sec)
+        | _ -> ("?", sec)) ressecs in
+      let pos id = (let rec go i = function [] -> -1 | x :: r -> if x = id then i else go (i + 1) r in go 0 row_ids) in
+      (* 1. emission order *)
+      let rec order last = function
+        | [] -> None
+        | (id, _) :: r ->
+            let p = pos id in
+            if p < 0 then Some ("chk sync_async_differ " ^ mode ^ " the sink got a result of no emitted row id=" ^ id)
+            else if p = last then Some ("chk sync_async_differ " ^ mode ^ " row " ^ string_of_int p ^ " delivered twice")
+            else if p < last then Some ("chk producer_order " ^ mode ^ " the result of row " ^ string_of_int p
+                                        ^ " reached the sink after the result of row " ^ string_of_int last)
+            else order p r in
+      (match order (-1) res with
+       | Some c -> c
+       | None ->
+           (* 2. every delivered result is the model's; 3. nothing is missing or extra (unless rows were dropped at the input) *)
+           let unm = ref false and bad = ref None in
+           List.iteri (fun i row ->
+             if !bad = None then begin
+               let id = List.nth row_ids i in
+               let d = direct q row in
+               let got = List.filter (fun (x, _) -> x = id) res in
+               (match d, got with
+                | DUnm, _ -> unm := true
+                | DNone, [] -> ()
+                | DNone, _ -> bad := Some ("diff direct row " ^ string_of_int i ^ " model=none impl=delivered")
+                | DRow _, [] ->
+                    if dropped = "0" then bad := Some ("chk sync_async_differ " ^ mode ^ " row " ^ string_of_int i ^ " produces a result (model) but the sink got none")
+                | DRow _, (_, sec) :: _ ->
+                    (match cmp_direct d sec with
+                     | DDiffer m -> bad := Some ("diff direct row " ^ string_of_int i ^ " " ^ m)
+                     | _ -> ()))
+             end) rows;
+           (match !bad with Some c -> c | None -> if !unm then "ok" else "ok nt"))
+  | _ -> "bad line"
+
+(* E: a row's result while another row is being evaluated by the same query on the other API path *)
+let handle05_e (mode : string) (path : string) (rest : string list) : string =
+  match Win.split_hash rest with
+  | [ _; qenc; rowt; seq; conc ] ->
+      let q = p_query qenc in let row = parse_row rowt in
+      let d = direct q row in
+      let tag = mode ^ " " ^ path in
+      if conc = [ "PANIC" ] then "chk overlap_dependent " ^ tag ^ " panic"
+      else if conc = [ "dup" ] then "chk overlap_dependent " ^ tag ^ " delivered more than once"
+      else
+      (match cmp_direct d conc, cmp_direct d seq with
+       | DSame, _ -> if seq = conc then "ok nt" else "chk overlap_dependent " ^ tag ^ " alone=" ^ String.concat " " seq ^ " overlapped=" ^ String.concat " " conc
+       | DUnmodelled, _ ->
+           if seq = conc then "ok" else "chk overlap_dependent " ^ tag ^ " alone=" ^ String.concat " " seq ^ " overlapped=" ^ String.concat " " conc
+       | DDiffer m, DDiffer _ -> if seq = conc then "diff direct " ^ m else "chk overlap_dependent " ^ tag ^ " " ^ m ^ " alone=" ^ String.concat " " seq ^ " overlapped=" ^ String.concat " " conc
+       | DDiffer m, _ -> "chk overlap_dependent " ^ tag ^ " " ^ m ^ " overlapped=" ^ String.concat " " conc)
+  | _ -> "bad line"
+
 let handle05 (toks : string list) : string =
   match toks with
+  | "X" :: mode :: _ :: rest -> handle05_x mode rest
+  | "E" :: mode :: path :: _ :: _ :: rest -> handle05_e mode path rest
   | "HD" :: _ -> "chk history_dependent"
   | "A" :: _ :: _ :: _ :: v :: _ -> if v = "same" then "ok" else "chk sync_async_differ"
   | "N" :: _ :: v :: _ -> if v = "same" then "ok" else "chk nested_" ^ v
